@@ -20,6 +20,20 @@ if os.path.exists(res):
         if f[2].startswith("UNUSABLE"): continue
         tgt[f[0]][1] += 1
         if f[2] == "CAUGHT": tgt[f[0]][0] += 1
+# seeded changes: a change counts for its own property; caught if any listed check caught it
+res2 = root + "/seeded/RESULTS.tsv"
+if os.path.exists(res2):
+    import json, glob
+    by = collections.defaultdict(list)
+    for l in open(res2):
+        f = l.rstrip("\n").split("\t")
+        if len(f) >= 3:
+            by[f[1]].append(f[2])
+    for m in glob.glob(root + "/seeded/*/meta.json"):
+        name = os.path.basename(os.path.dirname(m)); prop = json.load(open(m))["property"]
+        if name in by:
+            sd[prop][1] += 1
+            if any(v == "CAUGHT" for v in by[name]): sd[prop][0] += 1
 print("| id | group | level | quick: evaluations / distinct / wall | known findings | fixed | self-test patches caught | seeded changes caught |")
 print("|---|---|---|---|---|---|---|---|")
 for c in man["checks"]:
